@@ -239,7 +239,8 @@ qb_log_target_format_static(int32_t target, const char * format,
 		return;
 	}
 
-	while ((c = format[format_buffer_idx])) {
+	while (output_buffer_idx + 1 < t->max_line_length &&
+	       (c = format[format_buffer_idx])) {
 		cutoff = 0;
 		ralign = QB_FALSE;
 		if (c != '%') {
@@ -293,7 +294,9 @@ qb_log_target_format_static(int32_t target, const char * format,
 					     (t->max_line_length -
 					      output_buffer_idx));
 			output_buffer_idx += len;
-			format_buffer_idx += 1;
+			if (format[format_buffer_idx] != '\0') {
+				format_buffer_idx += 1;
+			}
 		}
 		if (output_buffer_idx >= t->max_line_length - 1) {
 			break;
@@ -338,7 +341,8 @@ qb_log_target_format(int32_t target,
 		return;
 	}
 
-	while ((c = t->format[format_buffer_idx])) {
+	while (output_buffer_idx + 1 < t->max_line_length &&
+	       (c = t->format[format_buffer_idx])) {
 		cutoff = 0;
 		ralign = QB_FALSE;
 		if (c != '%') {
@@ -437,7 +441,9 @@ qb_log_target_format(int32_t target,
 					     (t->max_line_length -
 					      output_buffer_idx));
 			output_buffer_idx += len;
-			format_buffer_idx += 1;
+			if (t->format[format_buffer_idx] != '\0') {
+				format_buffer_idx += 1;
+			}
 		}
 		if (output_buffer_idx >= t->max_line_length - 1) {
 			break;
@@ -445,14 +451,14 @@ qb_log_target_format(int32_t target,
 	}
 	pthread_rwlock_unlock(&_formatlock);
 
-	if (output_buffer[output_buffer_idx - 1] == '\n') {
+	if (output_buffer_idx > 0 && output_buffer[output_buffer_idx - 1] == '\n') {
 		output_buffer[output_buffer_idx - 1] = '\0';
-	} else {
-		output_buffer[output_buffer_idx] = '\0';
 	}
+	output_buffer[output_buffer_idx] = '\0';
 
 	/* Indicate truncation */
-	if (t->ellipsis && output_buffer_idx >= t->max_line_length-1) {
+	if (t->ellipsis && output_buffer_idx >= t->max_line_length-1 &&
+	    output_buffer_idx >= 3) {
 		output_buffer[output_buffer_idx-3] = '.';
 		output_buffer[output_buffer_idx-2] = '.';
 		output_buffer[output_buffer_idx-1] = '.';
